@@ -123,4 +123,23 @@ theorem b64_encode_injective (a b : Bytes) (h : b64Encode a = b64Encode b) : a =
 theorem b64_decode_encode_str (bs : Bytes) : b64DecodeStr (b64EncodeStr bs) = some bs := by
   simp [b64DecodeStr, b64EncodeStr, b64_decode_encode]
 
+theorem b64_decode_strict_encode_str (bs : Bytes) : b64DecodeStrictStr (b64EncodeStr bs) = some bs := by
+  simp [b64DecodeStrictStr, b64EncodeStr, b64_decode_encode]
+
+/-- the strict decoder accepts exactly the canonical text of a value -/
+theorem b64_decode_strict_inv (s : String) (bs : Bytes) (h : b64DecodeStrictStr s = some bs) :
+    b64DecodeStr s = some bs ∧ s = b64EncodeStr bs := by
+  unfold b64DecodeStrictStr at h
+  cases hd : b64Decode s.toList with
+  | none => simp [hd] at h
+  | some bs' =>
+    simp only [hd] at h
+    by_cases he : b64Encode bs' = s.toList
+    · simp only [he, if_true, Option.some.injEq] at h
+      subst h
+      refine ⟨hd, ?_⟩
+      apply String.toList_inj.mp
+      simp [b64EncodeStr, he]
+    · simp [he] at h
+
 end Sidetree
